@@ -7,6 +7,7 @@ import P9Model.Driver.K19
 import P9Model.Driver.KCS
 import P9Model.Driver.KMux
 import P9Model.Driver.K7
+import P9Model.Driver.K5
 /-!
 Line-protocol driver: reads `<mode> key=value …` lines on stdin, prints the model's
 prediction for each on stdout (one line per line). Core library only (compiled `lean_exe`).
@@ -17,6 +18,7 @@ open P9.Driver
 structure DState where
   q : QState := {}
   k4 : K4State := {}
+  k5 : K5State := {}
 
 def step (s : DState) (line : String) : DState × String :=
   let toks := parseLine line
@@ -47,6 +49,9 @@ def step (s : DState) (line : String) : DState × String :=
   | some ("k7storm", _) => (s, k7storm toks)
   | some ("kpool", _) => (s, kpool toks)
   | some ("kmux", _) => (s, kmux toks)
+  | some ("k5new", _) => ({ s with k5 := { s.k5 with fs := {} } }, "ok")
+  | some ("k5obs", _) => let (x, o) := k5obs s.k5 toks; ({ s with k5 := x }, o)
+  | some ("k5stats", _) => (s, k5stats s.k5 ++ (if toks.any (·.1 == "show") then s!" fence={s.k5.fenceChecks} ident={s.k5.identChecks} moves={s.k5.moves}" else ""))
   | some ("k4", _) => let (x, o) := k4 s.k4 toks; ({ s with k4 := x }, o)
   | some ("k4new", _) => let (x, o) := k4new toks; ({ s with k4 := x }, o)
   | some ("k4stop", _) => let (x, o) := k4stop s.k4 toks; ({ s with k4 := x }, o)
